@@ -5,6 +5,8 @@ mod util;
 mod c14;
 mod geom;
 mod c12;
+mod tess;
+mod c04;
 mod c17;
 mod c15;
 mod c02;
@@ -15,7 +17,9 @@ use util::Args;
 
 fn main() {
     // panics of the code under test are caught and reported as observations
-    std::panic::set_hook(Box::new(|_| {}));
+    if std::env::var("LVH_PANIC").is_err() {
+        std::panic::set_hook(Box::new(|_| {}));
+    }
     let argv: Vec<String> = std::env::args().collect();
     if argv.len() < 2 {
         eprintln!("usage: lvh <property> [--tier quick|thorough] [--seed N] [--out DIR] [--shards K] [--replay FILE]");
@@ -46,6 +50,7 @@ fn main() {
         "c10" => geom::main_c10(&args),
         "c11" => geom::main_c11(&args),
         "c12" => c12::main(&args),
+        "c04" => c04::main(&args),
         "c17" => c17::main(&args),
         "c15" => c15::main(&args),
         "c02" => c02::main(&args),
